@@ -465,7 +465,8 @@ def check_hit_path(ctx):
                 ctx.check(bool(net) == want_dl, 'C19.5', f"{tag}: {'downloads' if want_dl else 'no network access'}",
                           f"network calls: {[(e.data['name'], e.loc()) for e in net]}", fi.loc(), fi.qualname, f"row:{dim}:{deia}:{avail}")
                 loads = [e for e in libs if e.data['name'] == 'pickle.load']
-                unc_raise = [e for e in ev.events if e.kind == 'raise' and e.func is fi]
+                # (raises of the loader itself, and those a helper it calls makes unconditionally on this row)
+                unc_raise = [e for e in ev.events if e.kind == 'raise' and (e.func is fi or not e.guard)]
                 if not want_dl and avail:
                     okl = len(loads) == 1
                     if okl:
